@@ -103,9 +103,18 @@ def canonical(scen: dict) -> dict:
 def safe_execute(engine: Engine, scen: dict) -> Result:
     scen = canonical(scen)
     faulthandler.dump_traceback_later(RUN_WATCHDOG_S, exit=True)
+    old = core.install_spin_timer()
     try:
-        return engine.execute(scen)
+        try:
+            return engine.execute(scen)
+        except core.SpinTimeout as e:
+            # an engine that has no place of its own for "the program never waits again"
+            res = Result()
+            res.violate(engine.prop, f"{engine.prop}.0", "program-spins-without-reaching-a-simulated-wait", str(e))
+            res.digest = "spin-timeout"
+            return res
     finally:
+        core.remove_spin_timer(old)
         faulthandler.cancel_dump_traceback_later()
 
 
